@@ -392,9 +392,40 @@ def explore_server(acc, single, init_ids, depth):
     acc.add('nontrivial', cfgname)
 
 
+def explore_factories(acc):
+    """the full-address-space factories and default(): boundary addresses of a 65536-cell block"""
+    for kind, cls in (('sequential', ModbusSequentialDataBlock), ('sparse', ModbusSparseDataBlock)):
+        b = cls.create()
+        name = kind + '/create'
+        for a, c, want in ((0, 1, True), (65535, 1, True), (65535, 2, False), (65534, 2, True), (65536, 1, False), (0, 65536, True), (1, 65536, False)):
+            acc.inc('transitions')
+            try:
+                got = bool(b.validate(a, c))
+            except Exception as e:   # noqa
+                got = 'raise:' + type(e).__name__
+            if got != want:
+                acc.violation('C18/%s/validate/%s/create' % (kind, 'accepts-outside' if got is True else 'rejects-inside' if got is False else got),
+                              dict(block=name, history=[['v', a, c]]), 'create(): validate(%d, %d) = %r' % (a, c, got), name)
+        b.setValues(65534, [7, 8])
+        acc.inc('transitions', 2)
+        if list(b.getValues(65533, 3)) != [0, 7, 8] or list(b.getValues(0, 2)) != [0, 0]:
+            acc.violation('C18/%s/setValues/wrong-cells/create' % kind, dict(block=name, history=[['s', 65534, [7, 8]]]),
+                          'create(): cells 65533..65535 = %r' % (list(b.getValues(65533, 3)),), name)
+    d = ModbusSequentialDataBlock(5, [1, 2, 3])
+    d.default(4, 9)
+    acc.inc('transitions')
+    if list(d) != [(0, 9), (1, 9), (2, 9), (3, 9)]:
+        acc.violation('C18/sequential/default/wrong-items/n/a', dict(block='sequential/default', history=[['default', 4, 9]]),
+                      'default(4, 9) gives %r' % (list(d),), 'sequential/default')
+    acc.add('nontrivial', 'factories')
+
+
 def shard(args):
     acc = Acc()
     what = args[0]
+    if what == 'factories':
+        explore_factories(acc)
+        return acc
     if what == 'block':
         explore_block(acc, args[1], args[2])
     elif what == 'slave':
@@ -408,6 +439,7 @@ def run(tier, seed):
     depth = 3 if tier == 'quick' else 5
     shards = [('block', c, depth) for c in block_configs(tier)]
     shards += [('slave', z, s) for z in (False, True) for s in (False, True)]
+    shards += [('factories',)]
     sdepth = 3 if tier == 'quick' else 4
     shards += [('server', True, (), sdepth)] + [('server', False, ids, sdepth) for ids in ((), 'no-arg', (1,), (1, 2), (0, 247))]
     acc = par.run_shards(shard, shards)
@@ -428,6 +460,10 @@ def run(tier, seed):
 
 def replay(w):
     acc = Acc()
+    if 'block' in w and ('create' in w['block'] or 'default' in w['block']):
+        explore_factories(acc)
+        vs = [v for v in acc.violations if v['witness'] == w]
+        return bool(vs), '\n'.join(v['msg'] for v in vs) or 'no violation'
     if 'block' in w:
         for c in block_configs('thorough'):
             _, m0 = make_block(c)
